@@ -5,6 +5,7 @@ import os
 import warnings
 
 from . import astutil as A
+from . import normalize
 
 
 class AnalysisError(Exception):
@@ -15,7 +16,7 @@ class AnalysisError(Exception):
 
 
 class Module(object):
-    def __init__(self, name, relpath, is_pkg, source):
+    def __init__(self, name, relpath, is_pkg, source, inline=True):
         self.name = name
         self.relpath = relpath
         self.is_pkg = is_pkg
@@ -26,6 +27,8 @@ class Module(object):
                 self.tree = ast.parse(source, filename=relpath)
         except SyntaxError as err:
             raise AnalysisError("cannot parse %s: %s" % (relpath, err))
+        # private helpers that the reference tree does not have are inlined into their callers (see normalize.py)
+        self.inlined = normalize.inline_new_helpers(self.tree, name) if inline and os.environ.get("VERIF_NO_INLINE") != "1" else []
         A.set_parents(self.tree, self)
         self._defs = None
 
@@ -57,7 +60,7 @@ class Tree(object):
     self-tests, nothing is written to disk.
     """
 
-    def __init__(self, root="/repo", overlay=None):
+    def __init__(self, root="/repo", overlay=None, inline=True):
         self.root = root
         self.modules = {}
         self.by_path = {}
@@ -88,7 +91,7 @@ class Tree(object):
             if name.endswith(".__init__"):
                 name = name[: -len(".__init__")]
                 is_pkg = True
-            m = Module(name, rel, is_pkg, text)
+            m = Module(name, rel, is_pkg, text, inline)
             self.modules[name] = m
             self.by_path[rel] = m
         self.digest = h.hexdigest()
